@@ -19,6 +19,7 @@ import sys
 import tempfile
 
 _cell = [0]
+WRAPS = {}
 
 
 def setup_env(store_dir, extra_clusters=()):
@@ -139,6 +140,13 @@ def main():
                 elif how == "wrapper":
                     fn = m.MementoFunction(fn.fn, cluster_name=fn.cluster_name, register_fn=False)
                 ev["how"] = how
+                ev["ver"] = fn.version()
+                ev["qn"] = fn.fn_reference().qualified_name
+            elif kind == "wrap":          # an unregistered instance around the function now bound to the name, kept for later queries
+                fn = getattr(mod, op["name"])
+                WRAPS[op["id"]] = m.MementoFunction(fn.fn, cluster_name=fn.cluster_name, register_fn=False)
+            elif kind == "query_obj":
+                fn = WRAPS[op["id"]]
                 ev["ver"] = fn.version()
                 ev["qn"] = fn.fn_reference().qualified_name
             elif kind == "deps":
